@@ -183,7 +183,7 @@ def ctl_extract(t):
     hist = {"fval": {}, "fsd": {}}
     for k, e in ev:
         if k == "ITER":
-            cur = {"start": e, "srch": None, "poll": None, "ei_main": []}
+            cur = {"start": e, "srch": None, "poll": None, "ei_main": [], "pcalls": []}
             iters.append(cur)
         elif k == "HIST" and e["key"] in hist:
             hist[e["key"]][e["it"]] = e["val"]
@@ -195,6 +195,8 @@ def ctl_extract(t):
                 cur["hist_at_poll"] = {kk: dict(vv) for kk, vv in hist.items()}
             elif k == "EI":
                 cur["ei_main"].append(e)
+            elif k == "CALL" and e.get("phase") == "poll" and "exc" not in e:
+                cur["pcalls"].append(e)
     if t["error"] is not None and iters:
         iters = iters[:-1]      # the run died inside (or after) its last iteration: that one is incomplete
     if not iters:
@@ -238,10 +240,13 @@ def ctl_extract(t):
             ob["ei_inputs_bad"] = None
             if not t.get("ei_script"):
                 if it["start"]["unc"] > 0:
-                    # noisy modes (declared, specified or auto-detected): success is judged on the GP estimate at the polled point, which
-                    # carries a positive predictive SD; a zero SD means the raw observation was used
-                    for e in eis[:n]:
-                        if e["s_new"] is None or e["s_new"] == 0:
+                    # noisy modes (declared, specified or auto-detected): success is judged on the GP estimate at the polled point, not on
+                    # the raw observation (which comes without an SD).  A predictive SD of exactly 0 alone is not enough to tell (the GP's
+                    # posterior variance can underflow to 0 for tiny noise_size): the value must also BE the raw observation of that call
+                    pc = it.get("pcalls") or []
+                    for j, e in enumerate(eis[:n]):
+                        raw = pc[j]["ret"][0] if j < len(pc) else None
+                        if (e["s_new"] is None or e["s_new"] == 0) and (raw is None or e["f_new"] == raw):
                             ob["ei_inputs_bad"] = ("judged_on_gp_estimate", f"noisy run (uncertainty level {it['start']['unc']}): a poll improvement was computed from (f_new, s_new)=({e['f_new']}, {e['s_new']}), "
                                                    "i.e. from the raw observation instead of the GP estimate at the polled point")
                             break
@@ -626,6 +631,19 @@ def _finite(*vals):
     return True
 
 
+def _calls_until_group(t, k):
+    """Number of target calls made by the end of the k-th main-loop iteration (0-based) of a traced run."""
+    n = g = 0
+    for kk, e in t["events"]:
+        if kk == "ITER":
+            g += 1
+            if g > k + 1:
+                break
+        elif kk == "CALL":
+            n += 1
+    return n
+
+
 def noisy_extract(t):
     """Oracle inputs per loop iteration + observed states. None if the run has non-finite estimates or no loop."""
     ev = t["events"]
@@ -803,7 +821,7 @@ def noisy_replay(ctx, rep, pid):
             obv = (enc_pt(ob["u"]), enc_pt(ob["u_best"]), enc(ob["yval"]), enc(ob["fval"]), enc(ob["fsd"]))
             if mod != obv:
                 rep.disagree("Noisy.iterStep ~ optimize loop incumbent/history bookkeeping",
-                             f"iteration {k}: model (u,u_best,yval,fval,fsd)={mod} observed {obv}; {tag}", case)
+                             f"iteration {k}: model (u,u_best,yval,fval,fsd)={mod} observed {obv}; {tag}", dict(case, iter_hint=it.get("it", k), calls_hint=_calls_until_group(t, k)))
                 ok = False
                 break
         if ok and default_policy and t["error"] is None and r["final"] is not None:
@@ -925,8 +943,10 @@ def _c19_predicates(rep, t, x, case, tag):
         if yv is None:
             continue
         if he:
-            raws = [c.get("raw_y", c["ret"][0]) for c in cs]
-            lo, hi = min(vals + raws), max(vals + raws)
+            # the observations as the TARGET returned them (the wrapper's own record; the logger's return value is the merged estimate
+            # that this clause is about)
+            raws = [(c["tret"][0] if c.get("tret") else c["ret"][0]) for c in cs]
+            lo, hi = min(raws), max(raws)
             if not (lo - 1e-12 * max(1, abs(lo)) <= yv <= hi + 1e-12 * max(1, abs(hi))):
                 rep.violation("hist_yval_observed", "bads.py:noisy incumbent bookkeeping", f"iteration {it}: recorded yval={yv} is outside the range of the observations at the recorded x {sorted(set(vals))[:4]}; {tag}", case)
                 return
@@ -1168,6 +1188,38 @@ def full_extract(t):
     return {"req": req, "iters": iters, "x": x, "nx": nx}
 
 
+def _compare_full_states(rep, d, states, stats, tag, case):
+    """Per-iteration comparison of a run replayed through Full.step (shared by full.replay and whole.replay). False at the first disagreement."""
+    x, iters = d["x"], d["iters"]
+    for k, (st, it, o) in enumerate(zip(states, iters, x["outs"])):
+        stats["iterations"] += 1
+        c, ns = st["ctl"], st["ns"]
+        if not st["searchFound"] or not st["pollFound"]:
+            rep.disagree("Full.step ~ evaluated points are rows of the filtered candidate sets", f"iteration {k}: an evaluated {'search' if not st['searchFound'] else 'poll'} point is not in the model's filtered set; {tag}", case)
+            return False
+        obs_evals = [c_[1] for c_ in it["calls"]]
+        if st["newEvals"] != obs_evals:
+            rep.disagree("Full.step ~ sequence of evaluated points", f"iteration {k}: model evaluates {len(st['newEvals'])} points, run {len(obs_evals)}; {tag}", case)
+            return False
+        stats["evaluations"] += len(obs_evals)
+        if o["zs"]:
+            stats["improvements_compared"] += len(o["zs"])
+            if st["zs"] != o["zs"]:
+                rep.disagree("Full.outOf ~ _eval_improvement_ (q = 0.5: difference of the estimates)", f"iteration {k}: derived poll improvements {st['zs'][:4]} observed {o['zs'][:4]}; {tag}", case)
+                return False
+        if st["it"] != it["start"]["it"]:
+            rep.disagree("Full.iterOf ~ recording index", f"iteration {k}: model records at index {st['it']}, run's poll_iteration is {it['start']['it']}; {tag}", case)
+            return False
+        if k < len(iters) - 1:
+            nxt = iters[k + 1]["start"]
+            mod = (c["fc"], c["nRec"], c["sc"], c["ss"], c["msi"], c["pollIter"], c["finished"], ns["u"], ns["yval"], ns["fval"], ns["fsd"])
+            obsv = (nxt["fc"], nxt["nrec"], nxt["sc"], nxt["ss"], nxt["msi"], nxt["it"], False, enc_pt(nxt["u"]), enc(nxt["yval"]), enc(nxt["fval"]), enc(nxt["fsd"]))
+            if mod != obsv:
+                rep.disagree("Full.step ~ optimize loop", f"iteration {k}: model (fc,nRec,sc,ss,msi,iter,finished,u,yval,fval,fsd)={mod} observed {obsv}; {tag}", case)
+                return False
+    return True
+
+
 def full_replay(ctx, rep, modes=("det", "auto", "decl", "he")):
     """Every traced run (all noise modes) through Full.step: evaluated points, derived improvements, incumbent estimate, recording index,
     counters and mesh per iteration."""
@@ -1191,31 +1243,136 @@ def full_replay(ctx, rep, modes=("det", "auto", "decl", "he")):
         case = {"kind": "full_run", "spec": sp}
         stats["runs"] += 1
         stats["by_mode"][sp["mode"]] = stats["by_mode"].get(sp["mode"], 0) + 1
-        x, iters = d["x"], d["iters"]
-        for k, (st, it, o) in enumerate(zip(r["states"], iters, x["outs"])):
-            stats["iterations"] += 1
-            c, ns = st["ctl"], st["ns"]
-            if not st["searchFound"] or not st["pollFound"]:
-                rep.disagree("Full.step ~ evaluated points are rows of the filtered candidate sets", f"iteration {k}: an evaluated {'search' if not st['searchFound'] else 'poll'} point is not in the model's filtered set; {tag}", case)
-                break
-            obs_evals = [c_[1] for c_ in it["calls"]]
-            if st["newEvals"] != obs_evals:
-                rep.disagree("Full.step ~ sequence of evaluated points", f"iteration {k}: model evaluates {len(st['newEvals'])} points, run {len(obs_evals)}; {tag}", case)
-                break
-            stats["evaluations"] += len(obs_evals)
-            if o["zs"]:
-                stats["improvements_compared"] += len(o["zs"])
-                if st["zs"] != o["zs"]:
-                    rep.disagree("Full.outOf ~ _eval_improvement_ (q = 0.5: difference of the estimates)", f"iteration {k}: derived poll improvements {st['zs'][:4]} observed {o['zs'][:4]}; {tag}", case)
-                    break
-            if st["it"] != it["start"]["it"]:
-                rep.disagree("Full.iterOf ~ recording index", f"iteration {k}: model records at index {st['it']}, run's poll_iteration is {it['start']['it']}; {tag}", case)
-                break
-            if k < len(iters) - 1:
-                nxt = iters[k + 1]["start"]
-                mod = (c["fc"], c["nRec"], c["sc"], c["ss"], c["msi"], c["pollIter"], c["finished"], ns["u"], ns["yval"], ns["fval"], ns["fsd"])
-                obsv = (nxt["fc"], nxt["nrec"], nxt["sc"], nxt["ss"], nxt["msi"], nxt["it"], False, enc_pt(nxt["u"]), enc(nxt["yval"]), enc(nxt["fval"]), enc(nxt["fsd"]))
-                if mod != obsv:
-                    rep.disagree("Full.step ~ optimize loop", f"iteration {k}: model (fc,nRec,sc,ss,msi,iter,finished,u,yval,fval,fsd)={mod} observed {obsv}; {tag}", case)
-                    break
+        _compare_full_states(rep, d, r["states"], stats, tag, case)
+    return stats
+
+
+# ------------------------------------------------------------------------------------------------
+# ONE WHOLE CALL of optimize(): Opt.init + Full.step + Opt.finish (Optimize.lean)
+
+def whole_extract(t):
+    """Request for `whole.replay`: on top of full_extract, the inputs of the initial phase (start point, returned values, snapped design)
+    and of the final phase (re-estimates, quantile values, fresh samples).  What the model then DERIVES and the harness compares: the
+    calls of the initial phase, the uncertainty level, the number of final samples, the loop budget, the doubled stall limit, the first
+    incumbent, the counters at loop entry, and the complete call sequence and yval_vec of the run."""
+    d = full_extract(t)
+    if d is None or "skip" in d:
+        return d
+    hdr, ev = t["hdr"], t["events"]
+    pre = []
+    for k, e in ev:
+        if k == "ITER":
+            break
+        if k == "CALL":
+            if "exc" in e:
+                return {"skip": "target fault in the initial phase"}
+            pre.append(e)
+    unc0 = hdr.get("unc0")
+    if unc0 is None or not pre:
+        return {"skip": "no header"}
+    design = None
+    for k, e in ev:
+        if k == "ITER":
+            break
+        if k == "FILT" and e["site"] in ("init", "pre"):
+            if "U" not in e:
+                return {"skip": "initial design too large to be recorded"}
+            design = enc_pts(e["U"])
+    n0 = 1 + (1 if unc0 < 1 else 0)
+    if len(pre) < n0:
+        return {"skip": "run ended inside the initial phase"}
+    dcalls = pre[n0:]
+    o = hdr["opts"]
+    if any(o.get(k) is None for k in ("max_fun_evals", "tol_stall_iters", "noise_final_samples", "fun_eval_start", "tol_noise")):
+        return {"skip": "options missing from the header"}
+    req = dict(d["req"])
+    req["cmd"] = "whole.replay"
+    req.pop("init", None)
+    opts = dict(req["opts"])
+    opts["budget"] = max(0, int(o["max_fun_evals"]))            # the USER's budget; the model derives the loop's
+    opts["stallIters"] = max(0, int(o["tol_stall_iters"]))      # as configured; the model doubles it for noisy targets
+    req["opts"] = opts
+    s0 = d["iters"][0]["start"]
+    ns = d["nx"]["init"]
+    req["whole"] = {"unc0": int(unc0), "tolNoise": enc(o["tol_noise"]), "funEvalStart": max(0, int(o["fun_eval_start"])),
+                    "nfs": max(0, int(o["noise_final_samples"])), "noiseSize": enc(1.0 if o.get("noise_size") is None else o["noise_size"]),
+                    "h0": enc(s0["sms"]), "msi0": d["x"]["init"]["msi"]}
+    req["initOrc"] = {"u0": enc_pt(pre[0]["u"]), "y0": enc(pre[0]["ret"][0]), "y0bis": enc(pre[1]["ret"][0]) if unc0 < 1 else "0",
+                      "design": design or [], "vals": [{"y": enc(c["ret"][0]), "newRow": c["Xn"] != c["Xn_before"]} for c in dcalls],
+                      "sdAtMin": ns["fsd"]}
+    fin = d["nx"].get("final") or {}
+    sel = fin.get("select") or {}
+    req["finalOrc"] = {"reVals": sel.get("reVals", []), "qs": sel.get("qs", []), "samples": fin.get("samples", [])}
+    d = dict(d)
+    d["req"] = req
+    d["pre"] = pre
+    return d
+
+
+def whole_replay(ctx, rep, modes=("det", "auto", "decl", "he")):
+    """Every traced run through Opt.init / Full.step / Opt.finish: the initial phase and the final re-sampling are derived by the model."""
+    traces = [t for t in get_pool(ctx) if t["constructed"] and t["hdr"] is not None and t.get("final") and t["spec"]["mode"] in modes
+              and not t.get("ei_script") and not t.get("es_script") and not t.get("gp_faults") and not t.get("predict_faults") and not t.get("fault")
+              and not t.get("update_faults") and not t["hdr"]["opts"].get("stobads") and t["error"] is None]
+    items, skipped = [], {}
+    for t in traces:
+        d = whole_extract(t)
+        if d is None:
+            skipped["no loop / non-finite estimates / non-dyadic tol_mesh"] = skipped.get("no loop / non-finite estimates / non-dyadic tol_mesh", 0) + 1
+        elif "skip" in d:
+            skipped[d["skip"]] = skipped.get(d["skip"], 0) + 1
+        else:
+            items.append((t, d))
+    res = ctx.driver.call_many([d["req"] for _, d in items])
+    stats = {"runs": 0, "iterations": 0, "evaluations": 0, "improvements_compared": 0, "calls_compared": 0, "final_samples": 0, "by_mode": {}, "skipped": skipped,
+             "noise_detected": 0, "design_points": 0}
+    for (t, d), r in zip(items, res):
+        sp = t["spec"]
+        tag = spec_tag(sp)
+        case = {"kind": "whole_run", "spec": sp}
+        stats["runs"] += 1
+        stats["by_mode"][sp["mode"]] = stats["by_mode"].get(sp["mode"], 0) + 1
+        mi, x, nx = r["init"], d["x"], d["nx"]
+        # ---- initial phase ----
+        obs_calls = [{"u": enc_pt(e["u"]), "rec": bool(e["rec"])} for e in d["pre"]]
+        if mi["calls"] != obs_calls:
+            rep.disagree("Opt.init ~ calls of the initial phase (_init_mesh_)", f"model makes {len(mi['calls'])} calls (Sobol points drawn: {mi['sobolCount']} for a request of {mi['nDesign']}), "
+                         f"the run {len(obs_calls)}; {tag}", case)
+            continue
+        stats["design_points"] += len(obs_calls)
+        stats["noise_detected"] += int(t["hdr"]["unc0"] < 1 and mi["unc"] == 1)
+        s0 = d["iters"][0]["start"]
+        mod = (mi["unc"], mi["fc"], mi["nRec"], mi["budgetLoop"], mi["stallIters"], mi["ns"]["u"], mi["ns"]["yval"], mi["ns"]["fval"], mi["ns"]["fsd"])
+        obsv = (int(s0["unc"]), x["init"]["fc"], x["init"]["nRec"], x["opts"]["budget"], x["opts"]["stallIters"], nx["init"]["u"], nx["init"]["yval"], nx["init"]["fval"], nx["init"]["fsd"])
+        if mod != obsv:
+            rep.disagree("Opt.init ~ state at loop entry (_init_mesh_, _init_optimization_)",
+                         f"model (unc, func_count, rows, loop budget, stall limit, u, yval, fval, fsd)={mod} observed {obsv}; {tag}", case)
+            continue
+        # ---- loop ----
+        if not _compare_full_states(rep, d, r["states"], stats, tag, case):
+            continue
+        if len(r["states"]) != len(d["iters"]):
+            continue         # the model stopped earlier/later: reported by the controller correspondence
+        # ---- whole run ----
+        rr = r["result"]
+        all_calls = [{"u": enc_pt(e["u"]), "rec": bool(e["rec"])} for k, e in t["events"] if k == "CALL" and "exc" not in e]
+        stats["calls_compared"] += len(all_calls)
+        if rr["calls"] != all_calls:
+            n = next((i for i, (a, b) in enumerate(zip(rr["calls"], all_calls)) if a != b), min(len(rr["calls"]), len(all_calls)))
+            rep.disagree("Opt.optimize ~ complete sequence of target calls", f"model makes {len(rr['calls'])} calls, the run {len(all_calls)} (first difference at call #{n}; "
+                         f"final samples in the model: {mi['nfsEff']}); {tag}", case)
+            continue
+        stats["final_samples"] += mi["nfsEff"]
+        if rr["funcCount"] != t["result"]["func_count"]:
+            rep.disagree("Opt.finish ~ func_count", f"model {rr['funcCount']} result {t['result']['func_count']}; {tag}", case)
+            continue
+        if rr["u"] != enc_pt(t["final"]["u"]):
+            rep.disagree("Opt.finish ~ returned point", f"model u={rr['u']} run u={t['final']['u']}; {tag}", case)
+            continue
+        if mi["nfsEff"] > 0:
+            yv = t["result"].get("yval_vec")
+            yv = yv if isinstance(yv, list) else [yv]
+            yv = [v[0] if isinstance(v, list) else v for v in yv]
+            if rr["yvec"] != [enc(v) for v in yv]:
+                rep.disagree("Opt.finish ~ yval_vec", f"model {rr['yvec']} run {yv}; {tag}", case)
     return stats
